@@ -77,6 +77,16 @@ def forms_in_positions():
     return out
 
 
+def long_flat_files():
+    """Long files without nesting: one position per file, 360 declarations cycling through the forms - whatever a parse leaves
+    behind in the context (a counter, a budget, a table that fills up) has time to add up, and the plain parse is still cheap."""
+    out = {}
+    forms = list(FORMS.values())
+    for pn, pos in POSITIONS.items():
+        out["flat/%s" % pn] = "".join("let v%d = %s;\n" % (i, pos % forms[i % len(forms)]) for i in range(360))
+    return out
+
+
 def pool_texts():
     out = {}
     try:
@@ -99,6 +109,7 @@ def run_corpus(tag="memo"):
         texts["nested-%d" % d] = nested(d)
     texts.update(forms_in_positions())
     texts.update(pool_texts())
+    texts.update(long_flat_files())
     for name, text in texts.items():
         with open(os.path.join(rdir, name.replace("/", "_") + ".oal"), "w") as f:
             f.write(text)
@@ -347,6 +358,40 @@ def memo_lemmas(o, L, S, E, MM, MS, fs, structural, on_sat, bad):
                     shrinkers.append(fm.short)
         structural("Context: nothing ever takes an entry out of the memo table (no clear / remove / retain / drain in any Context method)", not shrinkers,
                    "Context: %s takes entries out of the memo table" % ", ".join(sorted(set(shrinkers))))
+        # ... and a production can change nothing of the context but the tree (through compose) and the memo table (through
+        # cache): no Context method assigns a field of its own - state that a production touches on a miss and a hit skips
+        # (a depth counter, a budget) makes the memoised parser differ from the plain one
+        fieldw = {}
+        for fm in MM.funcs:
+            if not fm.args or "grammar::Context<" not in fm.args[0][1] or fm.short.endswith("::new"):
+                continue
+            for bb in fm.blocks.values():
+                if bb.cleanup:
+                    continue
+                for st in mp.stmts_of(bb)[0]:
+                    if st[0] == "assign" and st[1][0] == "place" and st[1][1] == 1 and len(st[1][2]) >= 2 and st[1][2][0] == ("deref",) and st[1][2][1][0] == "f":
+                        k = st[1][2][1][1]
+                        if k != i_nc:
+                            fieldw.setdefault(names[k] if k < len(names) else str(k), set()).add(fm.short)
+        structural("Context: no method assigns a field of the context (the tree and the memo table change through compose / cache only)", not fieldw,
+                   "Context: state outside the memo protocol is written by %s" % "; ".join("%s <- %s" % (k, ", ".join(sorted(v))) for k, v in sorted(fieldw.items())))
+        # ... and a memoised production is its memoize call and nothing else: the function hands the context to memoize only
+        lone = True
+        who = []
+        for f in MS.funcs:
+            if not any(b.term and re.search(r"\bmemoize::<", b.term) for b in f.blocks.values()):
+                continue
+            exs2 = mirlib.executor([MS])
+            for p2 in exs2.run(f, arg_names=["c", "s"]):
+                if p2.kind not in ("return",):
+                    continue
+                others = [e for e in p2.calls() if not e[1].endswith("memoize") and any(t == ("sym", "c") for a in e[2] for t in ms.subterms(a))]
+                mz = [e for e in p2.calls() if e[1].endswith("memoize")]
+                if others or len(mz) != 1 or p2.ret != mz[0][3]:
+                    lone = False
+                    who.append(f.short)
+        structural("parser: a memoised production is its memoize call and nothing else (nothing touches the context before or after it)", lone,
+                   "parser: %s does more with the context than calling memoize" % ", ".join(sorted(set(who))))
         o.extra["no_cache_writers"] = sorted(set(writers))
         structural("Context: the caching switch is written by without_cache only (nothing turns it off for a part of the input)", set(writers) <= {"grammar::without_cache"},
                    "Context: %s writes the caching switch" % ", ".join(sorted(set(writers) - {"grammar::without_cache"})))
